@@ -16,6 +16,7 @@
 // with sin(theta) < eps^1.5 off the polar axis, which changes terms that vanish on the axis by that relative amount.
 #include "mc/ctx.hpp"
 #include "oracle/sph_sum.hpp"
+#include "oracle/sph_tol.hpp"
 #include <GeographicLib/SphericalHarmonic.hpp>
 #include <GeographicLib/SphericalHarmonic1.hpp>
 #include <GeographicLib/SphericalHarmonic2.hpp>
@@ -27,18 +28,8 @@
 using namespace GeographicLib;
 using mc::Ctx; using mc::fx; using mc::fmt; using mc::fmti;
 using sph::Q;
+using namespace sphtol;
 
-static const double EPS = std::numeric_limits<double>::epsilon();
-static const double EPS15 = EPS * std::sqrt(EPS);
-// Tolerance factor K(N) = 64 + N^2/16 (N = highest degree present).  64: DESIGN Appendix B.  The N^2 term is "calibrated then
-// frozen" (worst observed on the unchanged tree, in units of eps*sum|terms|: 7 at N <= 6, 67 at N = 60, 471 at N = 200, 1842 at
-// N = 360, always on or next to the polar axis; 4 x 1842 = 7368 < K(360) = 8164).  The growth is the conditioning of P_n(t)
-// at t = +-1 (d log P_n/dt = n(n+1)/2): the recurrences are driven by t = z/r, every rounding of t * (..) acts like a
-// perturbation of t.
-static double KTOL_of(int nmax) { return 64 + double(nmax) * nmax / 16; }
-static const double KDEV = getenv("C19_DEV_K") ? atof(getenv("C19_DEV_K")) : 1;   // DEV ONLY
-#define KTOL (KDEV * KTOL_of(s.nmax))
-#define KTOLR (KDEV * KTOL_of(ref.nmax))
 static const double SENT = -12345.678;
 
 // ---------------------------------------------------------------- coefficient storage (documented column-major layout)
@@ -82,33 +73,6 @@ static std::vector<Dir> directions(bool all) {
   }
   return d;
 }
-
-// ---------------------------------------------------------------- comparison
-struct Ratio { double r; double in_eps; };
-// error / tolerance of a value; extra = additional absolute allowance (position rounding)
-static Ratio rat_v(double got, const sph::Sum& s, Q extra = 0) {
-  Q err = sph::qabs(Q(got) - s.v), tol = Q(KTOL * EPS) * s.sv + Q(EPS15) * s.ssup + extra;
-  Ratio r;
-  r.r = tol > 0 ? double(err / tol) : (err == 0 ? 0.0 : INFINITY);
-  r.in_eps = Q(KTOL * EPS) * s.sv > 16 * (Q(EPS15) * s.ssup + extra) ? double(err / (Q(EPS) * s.sv)) : 0;   // only where the floor is negligible
-  if (!(got == got)) r.r = INFINITY;
-  return r;
-}
-static Ratio rat_g(const double got[3], const sph::Sum& s, Q extra = 0) {
-  Q tol = Q(KTOL * EPS) * s.sg + Q(EPS15) * s.ssupg + extra;
-  Ratio r{0, 0};
-  for (int i = 0; i < 3; ++i) {
-    Q err = sph::qabs(Q(got[i]) - s.g[i]);
-    double x = tol > 0 ? double(err / tol) : (err == 0 ? 0.0 : INFINITY);
-    if (!(got[i] == got[i])) x = INFINITY;
-    if (x > r.r) r.r = x;
-    double y = Q(KTOL * EPS) * s.sg > 16 * (Q(EPS15) * s.ssupg + extra) ? double(err / (Q(EPS) * s.sg)) : 0;
-    if (y > r.in_eps) r.in_eps = y;
-  }
-  return r;
-}
-static std::string q3(const Q g[3]) { return "(" + sph::qstr(g[0], 20) + "," + sph::qstr(g[1], 20) + "," + sph::qstr(g[2], 20) + ")"; }
-static std::string d3(const double g[3]) { return "(" + fmt(g[0]) + "," + fmt(g[1]) + "," + fmt(g[2]) + ")"; }
 
 // The library classes under one interface: value, value+gradient, circle
 struct Harm {
@@ -192,7 +156,7 @@ static void check_circle(Ctx& ctx, const std::string& pre, const Harm& h, double
         // the property's own wording: circle == direct evaluation at that longitude (direct call at the rounded point)
         double x = p * cl, y = p * sl, d[3];
         double vd = h.vg(x, y, z, d[0], d[1], d[2]);
-        Q tolv = 2 * (Q(KTOLR * EPS) * ref.sv + Q(EPS15) * ref.ssup) + 2 * posv, tolg = 2 * (Q(KTOLR * EPS) * ref.sg + Q(EPS15) * ref.ssupg) + 2 * posg;
+        Q tolv = 2 * tol_v(ref, posv), tolg = 2 * tol_g(ref, posg);
         double e = double(sph::qabs(Q(v3) - Q(vd)) / (tolv > 0 ? tolv : Q(1e-300)));
         if (tolv == 0) e = (v3 == vd) ? 0 : INFINITY;
         ctx.worstf(pre + ".vs_direct.value.err_over_tol", e, [&] { return key; });
@@ -317,9 +281,8 @@ int main(int argc, char** argv) {
           check_circle(ctx, "linearity.circle", wrap(h), p, z, 6, cr, key + " vec=" + "ABDM"[k], F, true);
         }
         // superposition of the library's own results
-        const sph::Sum& s = refs[3];
-        Q tolv = Q(KTOL * EPS) * (Q(2.5) * refs[0].sv + Q(0.75) * refs[1].sv + refs[2].sv + refs[3].sv) + Q(EPS15) * 4 * refs[3].ssup + Q(1e-300);
-        Q tolg = Q(KTOL * EPS) * (Q(2.5) * refs[0].sg + Q(0.75) * refs[1].sg + refs[2].sg + refs[3].sg) + Q(EPS15) * 4 * refs[3].ssupg + Q(1e-300);
+        Q tolv = Q(2.5) * tol_v(refs[0]) + Q(0.75) * tol_v(refs[1]) + tol_v(refs[2]) + tol_v(refs[3]) + Q(1e-300);
+        Q tolg = Q(2.5) * tol_g(refs[0]) + Q(0.75) * tol_g(refs[1]) + tol_g(refs[2]) + tol_g(refs[3]) + Q(1e-300);
         Q ev = sph::qabs(Q(v[3]) - (Q(2.5) * v[0] - Q(0.75) * v[1] + Q(v[2])));
         ctx.worstf("linearity.superposition.value.err_over_tol", double(ev / tolv), [&] { return key; });
         if (!(ev <= tolv)) ctx.fail(key + " superposition", "lib(2.5A-0.75B+D) = " + fx(v[3]) + " but 2.5 lib(A) - 0.75 lib(B) + lib(D) = " + sph::qstr(Q(2.5) * v[0] - Q(0.75) * v[1] + Q(v[2])), {{"kind", "superposition"}, {"norm", norm ? "SCHMIDT" : "FULL"}});
